@@ -80,3 +80,34 @@ def resize_rehash_rule(ctx, rule="R19u"):
                "probe path depended on the old capacity become unreachable" % (common.norm(b.npath), cfg.path_str(v, p) if p else "-"),
                b.where)
     ctx.floor(rule, "functions that resize a hash table", n, 2)
+
+
+def hash_identity_rule(ctx, rule="R09f"):
+    """A stable hash only PLACES an entry in a hash table; what an entry, an index or a key *is* is decided by equality.
+    WHO rule: StableHash::stable_hash is called only by the StableHash implementations themselves and by the hash-map
+    implementation (agdb::collections::multi_map / map).  The hash of a DbValue ignores its variant (I64(1) / U64(1),
+    String / Bytes collide by construction), so any look-up that compares hashes instead of keys merges distinct keys."""
+    fa = ctx.facts
+    n = 0
+    bad = []
+    for b in fa.bodies.values():
+        if b.crate != "agdb" or "::tests::" in b.path or "test_utilities" in b.path:
+            continue
+        for i, t in cfg.calls(b):
+            if not (cfg.callee_decl(t) or "").endswith("StableHash::stable_hash"):
+                continue
+            n += 1
+            owner = common.norm(b.root or b.npath)
+            if (b.d.get("impl_trait") or "").endswith("StableHash") or "as agdb::utilities::stable_hash::StableHash>" in owner or \
+                    owner.startswith(("agdb::collections::multi_map::", "agdb::collections::map::", "agdb::utilities::stable_hash::")):
+                continue
+            bad.append((owner, b.loc(i)))
+    for owner, loc in sorted(set(bad)):
+        ctx.ob(rule, "stable_hash-used-by:%s" % owner, False,
+               "`%s` computes a stable hash outside the hash-map implementation: a hash is not an identity (the hash of a "
+               "DbValue ignores its variant: I64(1) / U64(1), \"x\" / b\"x\" collide), look-ups must compare keys" % owner, loc,
+               key="%s|%s|stable_hash-used-by|%s" % (ctx.pid, rule, owner))
+    ctx.ob(rule, "stable_hash:only-places-entries", not bad,
+           "%d calls of stable_hash, all inside StableHash impls or the hash-map implementation" % n if not bad else
+           "%d function(s) outside the hash-map implementation use stable hashes" % len(set(bad)))
+    ctx.floor(rule, "calls of StableHash::stable_hash", n, 10)
